@@ -322,6 +322,20 @@ def _sum(ex, it, start=0):
 
 def _minmax(ex, is_max, *a, **kw):
     key = kw.get("key")
+    if len(a) == 1 and isinstance(a[0], SymSeq) and key is None:
+        # max/min of a sequence of symbolic length: fresh value with its defining property (A-builtin)
+        seq = a[0]
+        if ex.branch(seq.length <= 0):
+            if "default" in kw:
+                return kw["default"]
+            raise PyRaise("ValueError", "empty sequence")
+        m_, w_, q_ = z3.FreshInt("ext"), z3.FreshInt("wit"), z3.FreshInt("q")
+        el = lambda i: num_term(seq.at(i))
+        if not el(q_)[1]:
+            raise Unsupported("max/min over symbolic sequence of reals")
+        ex.assume(z3.And(0 <= w_, w_ < seq.length, el(w_)[0] == m_,
+                         z3.ForAll([q_], z3.Implies(z3.And(0 <= q_, q_ < seq.length), el(q_)[0] <= m_ if is_max else el(q_)[0] >= m_))))
+        return SNum(m_, True)
     xs = list(ex.iterate(a[0])) if len(a) == 1 else list(a)
     if not xs:
         if "default" in kw:
